@@ -73,6 +73,22 @@ def _bytes_clear(I, args, pc):
     return Effects(VUnit(), recv=Bytes(0))
 
 
+def _bytes_truncate(I, args, pc):
+    n, k = args[0].fields["n"].e, args[1].e
+    return Effects(VUnit(), recv=Bytes(VInt(z3.If(ult(k, n), k, n))))
+
+
+def _bytes_resize(I, args, pc):
+    return Effects(VUnit(), recv=Bytes(VInt(args[1].e)))
+
+
+def _bytes_extend(I, args, pc):
+    n, other = args[0].fields["n"].e, args[1]
+    if not (isinstance(other, VStruct) and other.name == "Bytes"):
+        raise Unsupported("extend of a byte vector by something that is not a byte vector")
+    return Effects(VUnit(), recv=Bytes(VInt(n + other.fields["n"].e)))
+
+
 # ---- CoseSign1 / coset model ------------------------------------------------------------------------
 def label(text):
     return VEnum("Label", TAG("Label", "Text"), {"Text": [VStr(bstr.lit(text))]})
@@ -141,6 +157,8 @@ OVERRIDES = {
     "vec_repeat": _vec_repeat,
     "Vec::new": lambda I, a, pc: Bytes(0),
     "Bytes::len": _bytes_len, "Bytes::push": _bytes_push, "Bytes::clear": _bytes_clear,
+    "Bytes::truncate": _bytes_truncate, "Bytes::resize": _bytes_resize, "Bytes::extend": _bytes_extend,
+    "Bytes::extend_from_slice": _bytes_extend, "Bytes::clone": lambda I, a, pc: a[0],
     "Bytes::is_empty": lambda I, a, pc: VBool(a[0].fields["n"].e == bv(0)),
     "CoseSign1::to_tagged_vec": _to_tagged_vec, "CoseSign1::clone": _clone,
     "DataHash::to_assertion": _to_assertion, "Assertion::data": _assertion_data,
@@ -241,6 +259,41 @@ def make_queries(tier):
         q.__doc__ = "DataHash::pad_to_size from a pad of %d bytes: symbolic target up to +%d bytes (one push per byte)" % (p0c, C["dh"])
         return q
 
+    def q_data_hash_pad_any_growth_bughunt(E):
+        """DataHash::pad_to_size from an empty pad with ANY growth up to 2^17 bytes, BUG HUNTING ONLY: paths that need more loop
+        iterations than the bound are assumed away (no unwinding assertion), so for the present one-byte-per-iteration code this
+        adds nothing beyond the bounded queries; it exists to reach large growths should the loop ever grow the pad in bigger steps"""
+        if E.mode != "symbolic":
+            return replay_dh(E, 0)
+        I = E.I
+        _install(I, E)
+        I.loop_bound = 12
+        I.recursion_bound = 3
+        base = E.int("base", 2 ** 16)
+        E.assume(uge(base.e, bv(8)))
+        extra = E.int("extra", 2 ** 17)
+        d = dh_value(base, Bytes(0), none_bytes())
+        cur = dh_size(d)
+        desired = VInt(cur + extra.e)
+        env = {"d": d, "desired": desired}
+        ast = {"k": "mcall", "line": 0, "recv": {"k": "path", "path": "d"}, "method": "pad_to_size", "turbofish": None,
+               "args": [{"k": "path", "path": "desired"}]}
+        import symex
+        I.frames.append(symex.Frame("<driver>"))
+        try:
+            r, env2, _ = I.eval(ast, env, z3.BoolVal(True))
+        finally:
+            I.frames.pop()
+        # unwinding guards become assumptions (stated: bug hunting only)
+        for g, _m in I.unwinds:
+            E.assume(z3.Not(g))
+        del I.unwinds[:]
+        d2 = env2["d"]
+        good = is_ok(r)
+        E.prove("padding up to a size that is not smaller than the current one succeeds", good)
+        E.prove("after success the serialised size is exactly the desired size", z3.Implies(good, dh_size(d2) == desired.e))
+        E.cover("some growth explored", z3.And(good, ugt(extra.e, bv(3))))
+
     def q_dh_too_small(E):
         """DataHash::pad_to_size to a size below the current one is an error, never a panic"""
         if E.mode != "symbolic":
@@ -261,7 +314,7 @@ def make_queries(tier):
         r = E.call("DataHash::pad_to_size", d, VInt(cur - less.e))
         E.prove("shrinking is refused", z3.Not(is_ok(r)))
 
-    qs = [mk_cose(False), mk_cose(True), q_cose_no_reserve, q_dh_too_small] + [mk_dh(p) for p in C["starts"]]
+    qs = [mk_cose(False), mk_cose(True), q_cose_no_reserve, q_dh_too_small, q_data_hash_pad_any_growth_bughunt] + [mk_dh(p) for p in C["starts"]]
     return qs
 
 
